@@ -20,15 +20,15 @@ RULE = ("window shapes: start on / 1-60 days before the planting date, end after
 ASSUMPTIONS = [
     "dates are derived with datetime arithmetic from start/end/planting MM/DD, independently of pandas",
     "the number of scheduled seasons and the latest harvest dates are read from the model's clock; the planting dates are checked against the reference",
-    "maturity thresholds are read from that season's crop object",
+    "maturity thresholds are read from that season's crop object; the degree days a thermal crop has accumulated are recomputed from the user's temperature records since that season's planting date (configured method and thresholds) and the model's own counter is compared against them",
 ]
 FLOORS = {
     "quick": {"harvest_date_checks": 1, "table_rows_unexecuted_checked": 1, "steps": 40000, "window_classes": 60, "season_jumps": 60, "end_by_date": 50,
               "end_by_harvest": 50, "ends_mature": 200, "ends_dead": 5, "ends_harvest_date": 10,
-              "stepped_runs": 50, "plantings": 300},
+              "stepped_runs": 50, "plantings": 300, "thermal_time_checks": 2000},
     "thorough": {"harvest_date_checks": 1, "table_rows_unexecuted_checked": 1, "steps": 400000, "window_classes": 120, "season_jumps": 600, "end_by_date": 500,
                  "end_by_harvest": 500, "ends_mature": 2000, "ends_dead": 50, "ends_harvest_date": 100,
-                 "stepped_runs": 500, "plantings": 3000},
+                 "stepped_runs": 500, "plantings": 3000, "thermal_time_checks": 20000},
 }
 
 
@@ -131,6 +131,15 @@ def monitor(spec, res, acc, complete=True):
     prev = None
     seen = set()
     season_end = {}
+    # thermal time of a season = degree days of the user's temperature records from that season's
+    # planting date on, with the *configured* method and thresholds (catalogue + keywords): the
+    # model's own gdd_cum is only compared against it, never trusted
+    cat = dict(common.crop_catalogue().get(spec["crop"]["name"], {}))
+    cat.update(spec["crop"].get("kw", {}))
+    thermal_ref = int(cat.get("CalendarType", 1)) == 2 and int(cat.get("SwitchGDD", 0)) != 1 \
+        and "Tupp" in cat and "Tbase" in cat and getattr(res, "kw", None) is not None
+    wl = base.weather_lookup(res.kw) if thermal_ref else None
+    ref_cum = 0.0
     for s in tr.steps:
         t = s["t"]
         cov["steps"] += 1
@@ -184,6 +193,18 @@ def monitor(spec, res, acc, complete=True):
                 # a scheduled planting date inside the window that is not simulated in-season
                 acc.add("planting-missed", f"step {t} ({day}) is the planting date of season "
                         f"{exp_pl.index(day)} but is simulated out of season", dict(t=t))
+        # ---- thermal time since this planting date ------------------------------------
+        if thermal_ref and s["gs"] and sc >= 0 and sc not in season_end and day in wl:
+            from .c16 import ref_gdd
+            rec = wl[day]
+            g = float(ref_gdd(int(cat.get("GDDmethod", 3)), float(cat["Tupp"]), float(cat["Tbase"]), rec[1], rec[0]))
+            ref_cum = g if s["dap"] == 1 else ref_cum + g
+            cov["thermal_time_checks"] += 1
+            if abs(float(s["gdd_cum"]) - ref_cum) > 1e-6 * max(1.0, abs(ref_cum)):
+                acc.add("thermal-time", f"step {t} ({day}), season {sc}, dap {s['dap']}: accumulated degree days "
+                        f"{s['gdd_cum']!r}, the temperature records since the planting date give {ref_cum!r}",
+                        dict(t=t, season=sc, dap=int(s["dap"])))
+                thermal_ref = False
         # ---- season end ----------------------------------------------------------------
         if s["gs"] and sc >= 0 and sc not in season_end:
             cr = tr.season_crop.get(sc, {})
